@@ -41,7 +41,7 @@ def check(r,seed):
     if n>=1:
         try:
             H=xgi.uniform_erdos_renyi_hypergraph(n,m,r.choice([0,0.5,1.5]),p_type="degree",seed=seed); basic(H,range(n),"uer-deg",sizes={m},nodup=True)
-        except xgi.XGIError: pass
+        except xgi.exception.XGIError: pass
         except Exception as e: fail("uer-deg-exc",type(e).__name__,str(e)[:80],n,m)
     # HSBM
     k=r.randint(1,3); m=r.randint(2,3); sizes=[r.randint(0,3) for _ in range(k)]; nn=sum(sizes)
@@ -51,7 +51,7 @@ def check(r,seed):
     except Exception as e: fail("hsbm-exc",type(e).__name__,str(e)[:60],1.0 in P)
     try:
         H=xgi.uniform_HPPM(n,m,r.choice([0,1,2]),r.choice([0,0.5,1]),rho=r.choice([0,0.3,0.5,1]),seed=seed); basic(H,range(n),"hppm",sizes={m})
-    except xgi.XGIError: pass
+    except xgi.exception.XGIError: pass
     except Exception as e: fail("hppm-exc",type(e).__name__,str(e)[:60],n,m)
     # config model
     m=r.randint(2,3); nn=r.randint(m,7); k={("v%d"%i if seed%2 else i):r.randint(0,3) for i in range(nn)}
